@@ -285,6 +285,20 @@ def rule_get_conn_contains(ctx, R):
                                                           "coordination task dies on a retriable condition", text="get-conn-contains-errors")
 
 
+def _lookup_args_ok(fi, ctor_calls):
+    ptype, pkey = fi.params()[1], fi.params()[2]
+    ok = True
+    for v in ctor_calls:
+        got = {"coordinator_key": None, "coordinator_type": None}
+        for i, a in enumerate(v.args[:2]):
+            got[("coordinator_key", "coordinator_type")[i]] = unparse(a)
+        for k in v.keywords:
+            if k.arg in got:
+                got[k.arg] = unparse(k.value)
+        ok = ok and got == {"coordinator_key": pkey, "coordinator_type": ptype}
+    return ok
+
+
 def rule_requests_built_per_call(ctx, R):
     """A request the client layer sends is BUILT IN THE CALL THAT SENDS IT, from that call's own arguments: the builder object carries the
     values of one API call (coordinator key and type, topic list), and prepare() picks the version and drops what the version cannot say
@@ -300,6 +314,9 @@ def rule_requests_built_per_call(ctx, R):
                 continue
             if isinstance(call.args[idx], ast.Call) and unparse(call.args[idx].func).split(".")[-1].endswith("Request"):
                 n += 1          # built in the argument position itself
+                if fi.name == "coordinator_lookup":
+                    ctx.ob(R, fi, call, _lookup_args_ok(fi, [call.args[idx]]), "coordinator_lookup does not build FindCoordinatorRequest(coordinator_key, coordinator_type) "
+                                                                                "from its own two arguments", text="lookup-request-from-arguments")
                 continue
             if not isinstance(call.args[idx], ast.Name):
                 continue
@@ -321,17 +338,7 @@ def rule_requests_built_per_call(ctx, R):
                    f"{fi.name}: the request handed to send() can be `{unparse(def_value(bad[0]))[:60] if bad else '?'}`, not a request built in this call: it carries the "
                    f"arguments of whichever call built it", text=f"request-built-here:{fi.name}")
             if fi.name == "coordinator_lookup" and reach and not bad:
-                ptype, pkey = fi.params()[1], fi.params()[2]
-                ok = True
-                for d in reach:
-                    v = def_value(d)
-                    got = {"coordinator_key": None, "coordinator_type": None}
-                    for i, a in enumerate(v.args[:2]):
-                        got[("coordinator_key", "coordinator_type")[i]] = unparse(a)
-                    for k in v.keywords:
-                        if k.arg in got:
-                            got[k.arg] = unparse(k.value)
-                    ok = ok and got == {"coordinator_key": pkey, "coordinator_type": ptype}
+                ok = _lookup_args_ok(fi, [def_value(d) for d in reach])
                 ctx.ob(R, fi, site[0], ok, "coordinator_lookup does not build FindCoordinatorRequest(coordinator_key, coordinator_type) from its own two arguments",
                        text="lookup-request-from-arguments")
     ctx.anchor(n >= 2, f"requests built and sent by the client layer ({n})")
